@@ -176,13 +176,14 @@ def eval_harness(h, r):
 def run_kani_units(units, tier, jobs, keep=False, skip_playback=False):
     """units: list of dict(package=..., harnesses=[...]).  One scratch copy for all."""
     obls, metas = [], []
+    und_parts = []
     todo = []
     for u in units:
         hs = [h for h in u['harnesses'] if tier == 'thorough' or h.get('tier', 'quick') == 'quick']
         if hs:
             todo.append((u, hs))
     if not todo:
-        return obls, metas, None
+        return obls, metas, None, und_parts
     try:
         sc = kani.Scratch(keep=keep)
         sc.__enter__()
@@ -198,7 +199,13 @@ def run_kani_units(units, tier, jobs, keep=False, skip_playback=False):
             can = res.get(u.get('canary', 'canary_must_fail'))
             eval_harness({'name': 'canary_must_fail', 'kind': 'must_fail'}, can)
             for h in hs:
-                ok, detail = eval_harness(h, res.get(h['name']))
+                try:
+                    ok, detail = eval_harness(h, res.get(h['name']))
+                except Undecided as e:
+                    # one harness without a verdict (timeout, out of memory, dropped fragile module, vacuity guard) does not
+                    # discard the verdicts of the others
+                    und_parts.append(str(e))
+                    continue
                 if res.get(h['name'], {}).get('from_cache'):
                     detail = detail + ['verdict reused: identical inputs (tree hash %s) verified at %s' % (meta.get('tree_hash', '')[:12], res[h['name']].get('cached_at', '?'))]
                 rec = {'name': 'kani:%s:%s' % (u['package'], h['name']), 'engine': 'kani/cbmc', 'ok': ok,
@@ -220,7 +227,7 @@ def run_kani_units(units, tier, jobs, keep=False, skip_playback=False):
             metas.append({'package': u['package'], 'cmd': meta['cmd'], 'wall_s': meta['wall_s'], 'overlay': sc.applied, 'reused_from_cache': meta.get('reused_from_cache', []), 'tree_hash': meta.get('tree_hash', '')})
     finally:
         sc.__exit__(None, None, None)
-    return obls, metas, sc.dir
+    return obls, metas, sc.dir, und_parts
 
 
 # ------------------------------------------------------------------ property
@@ -283,8 +290,9 @@ def _run_property(pid, tier, seed, args):
         # a native run of this check already produced a concrete failing input on the real code: Kani's own counterexample
         # extraction (minutes per harness) is skipped, the failed obligations are still reported
         have_input = any((not o['ok']) and o.get('witness') for o in obls)
-        kobls, kmetas, _ = run_kani_units(P.get('kani', []), tier, args.jobs, keep=args.keep, skip_playback=have_input)
+        kobls, kmetas, _, kund = run_kani_units(P.get('kani', []), tier, args.jobs, keep=args.keep, skip_playback=have_input)
         obls += kobls
+        undecided += kund
     except Undecided as e:
         undecided.append(str(e))
     # ---- verdict
@@ -423,7 +431,7 @@ def replay(pid, path, args):
         for u in P.get('kani', []):
             for h in u['harnesses']:
                 if h['name'] == rec['harness']:
-                    obls, _, _ = run_kani_units([{'package': u['package'], 'harnesses': [dict(h, tier='quick')]}], 'quick', 4)
+                    obls, _, _, _ = run_kani_units([{'package': u['package'], 'harnesses': [dict(h, tier='quick')]}], 'quick', 4)
                     print('concrete counterexample recorded at detection time:\n' + rec['concrete_playback_test'])
                     return 0 if all(o['ok'] for o in obls) else 1
     print(rec.get('verifier_output', '')[-3000:])
